@@ -9,8 +9,8 @@ T = {
  "C04": ("proof", "Coq: C04_asap, C04_alap (backward scheduler = mirror of the forward model), C04_subslot, C04_subslot_teams (gaps in seconds, mid-slot bounds; teams with limits). Tie: model correspondence on forward, backward and second-granularity projects + oracle (task-level ALAP: oracle only)", "3.C04"),
  "C05": ("proof", "Coq: regenerated period index = calendar day / Monday week for all starts and slots; C05_schedule, C05_alap (usage <= value per limit and period); C05_subslot / C05_subslot_ledger, C05_subslot_teams / C05_subslot_teams_ledger (second granularity, one resource and teams with tentative counting: a limit counts bookings; the cells holding counted work in a period are at most value many). Tie: translator + model correspondence + per-day / per-ISO-week aggregation of the implementation's ledger", "3.C05"),
  "C06": ("proof", "Coq: C06_frame, C06_alap (start < end, team booked in first and last slot, all bookings inside [start, end)); C06_subslot (+ overlap clauses of C03_subslot), C06_subslot_teams (start <= end for teams with limits). Tie: model correspondence + oracle (position inside shared slots via C01_layout; ALAP at second granularity: oracle)", "3.C06"),
- "C07": ("proof", "the extracted Coq list scheduler (Model/Sched.v) is the reference implementation the property names; Coq: C07_earliest_fit. Tie: every project of the bounded universe (thorough) / a sample (quick) + random core projects; every disagreement is a failing input", "3.C07"),
- "C08": ("proof", "Coq: C08_asap, C08_alap (single unlimited resource), C08_asap_teams_and_limits, C08_alap_teams_and_limits (skipped slot => member off, member booked elsewhere, or a limit without room for the team, stated on the final ledger), C08_subslot (second granularity: skipped slot is non-working, full or closed by a limit in the final ledger). Tie: model correspondence + oracles c08 / c08_team", "3.C08"),
+ "C07": ("proof", "the extracted Coq list scheduler (Model/Sched.v) is the reference implementation the property names; Coq: C07_earliest_fit, C07_work_list_order (the work list = the leaf tasks by priority, ties in declaration order), C07_first_ready (each step serves the first ready task of that list). Tie: every project of the bounded universe (thorough) / a sample (quick) + random core projects; every disagreement is a failing input", "3.C07"),
+ "C08": ("proof", "Coq: C08_asap, C08_alap (single unlimited resource), C08_asap_teams_and_limits, C08_alap_teams_and_limits (skipped slot => member off, member booked elsewhere, or a limit without room for the team, stated on the final ledger), C08_subslot, C08_subslot_teams (second granularity, one resource / teams with limits: skipped slot has a member that is off, full or closed by a limit in the final ledger). Tie: model correspondence + oracles c08 / c08_team", "3.C08"),
  "C09": ("proof", "Coq: C09_lowest_priority_harmless (simulation of the two runs), C09_served_last, C09_alap, C09_subslot (the same simulation at second granularity: efforts and offsets inside slots, limits counting bookings). Tie: two-run comparison on the implementation for random intruders (any declaration position, forward and backward)", "3.C09"),
  "C10": ("proof", "Coq: C10_summary, C10_alap, C10_subslot, C10_subslot_teams (container dates iff all leaves placed; min start / max end), C10_leaf_only. Tie: model correspondence on random trees + oracle at every nesting level (resource groups in allocations, containers of dated milestones)", "3.C10"),
  "C11": ("proof", "Coq: the models are total functions on structural fuel; C11_slots_in_horizon, C11_dates_in_horizon, C11_alap, C11_subslot. Partial: Lark, the transformer and everything before the scheduler are exercised by the infeasible-project generator and corrupted texts in isolated workers with time limits (testing, labelled so)", "3.C11"),
@@ -45,7 +45,7 @@ def main():
          "engines": [{"name": "coq+correspondence", "path": "/verif/check", "serves_properties": sorted(T),
                       "kind_free_text": "Coq 8.16 development under /verif/coq (Gen/ regenerated from /repo by translate/py2v.py on every run), extracted OCaml drivers, Python correspondence harness under /verif/harness"}],
          "checks": checks, "not_applicable": na,
-         "notes": "every check rebuilds from /repo's working tree: rsync to a scratch dir, Cython extensions rebuilt from the current .pyx, Gen/*.v regenerated, full coq_makefile .vo build, extraction + ocamlfind. known_findings.json lists the repaired defects (fixed) and the known findings K01, K02."}
+         "notes": "every check rebuilds from /repo's working tree: rsync to a scratch dir, Cython extensions rebuilt from the current .pyx, Gen/*.v regenerated, full coq_makefile .vo build, extraction + ocamlfind. known_findings.json lists the repaired defects (fixed) and the known findings K01, K02, K03."}
     json.dump(m, open("/verif/MANIFEST.json", "w"), indent=1)
     print(len(checks), "checks,", len(na), "not yet claimed")
 
